@@ -38,7 +38,7 @@ def ob_tail_aborts_tasks(report):
                    ['InboundRequestHandler::start'], {'loop_unroll': 1}, body)
 
 
-def ob_handle_no_connection_ops(report):
+def ob_handle_no_connection_ops(report, prop=None):
     def body(ob):
         from props.cmodels import CONNECTION_MODELS
         ex = e2.executor('anemo', CONNECTION_MODELS, max_depth=2, opaque=[r'do_handle$'])
@@ -51,7 +51,7 @@ def ob_handle_no_connection_ops(report):
             if bad:
                 o = ob.done([ex], 'violated', f'a failing/abandoned request closes or removes the whole connection ({bad[0].name}): abandoning one RPC affects the other RPCs in flight',
                             path_summary(r), key='handle-closes-connection', paths=len(res))
-                o.replay = write_replay(PROP, o.name, path_summary(r))
+                o.replay = write_replay(prop or PROP, o.name, path_summary(r))
                 return o
         ob.done([ex], 'held', '', {'paths': len(res)}, paths=len(res))
     return guarded(report, 'request_failure_touches_only_its_stream', 'BiStreamRequestHandler::handle performs no connection-level operation whatever do_handle returns',
